@@ -13,7 +13,7 @@ OutFile == IOEnv.VERIF_OUT
 \* marker indices (PipModel!PM): 6 extra == "test"   15 (extra == "test" or sys_platform == "linux")   3 sys_platform == "win32"
 Rq(name, r, m, ex) == [name |-> name, r |-> r, m |-> m, extras |-> ex]
 AOpts == {<<>>, <<Rq("pb", 3, 0, <<>>)>>, <<Rq("pb", 14, 0, <<>>)>>, <<Rq("pc", 11, 6, <<>>)>>, <<Rq("pb", 7, 0, <<>>)>>}
-          \cup (IF Family = "full" THEN {<<Rq("root", 14, 0, <<>>)>>, <<Rq("pc", 13, 15, <<>>)>>} ELSE {})
+          \cup (IF Family = "full" THEN {<<Rq("root", 14, 0, <<>>)>>, <<Rq("pc", 13, 15, <<>>)>>, <<Rq("pb", 13, 0, <<>>)>>} ELSE {})   \* ==2.0: another preference rating
 BOpts == {<<>>, <<Rq("pc", 3, 0, <<>>)>>, <<Rq("pc", 14, 0, <<>>)>>, <<Rq("pa", 3, 0, <<"test">>)>>}
           \cup (IF Family = "full" THEN {<<Rq("pa", 14, 0, <<>>)>>, <<Rq("pc", 11, 3, <<>>)>>} ELSE {})
 COpts == {<<>>, <<Rq("pb", 3, 0, <<>>)>>, <<Rq("pa", 11, 0, <<"test">>)>>} \cup (IF Family = "full" THEN {<<Rq("pb", 7, 0, <<>>)>>} ELSE {})
@@ -21,12 +21,13 @@ RootOpts == {<<Rq("pa", 11, 0, <<>>), Rq("pb", 11, 0, <<>>)>>, <<Rq("pb", 11, 0,
              <<Rq("pa", 11, 0, <<"test">>), Rq("pb", 3, 0, <<>>)>>, <<Rq("pc", 11, 0, <<>>), Rq("pb", 11, 0, <<>>)>>}
 UP(name, vs) == [name |-> name, versions |-> vs]
 UV(v, deps) == [v |-> v, deps |-> deps]
-Universes == {<< UP("pa", <<UV(1, a1), UV(5, a5)>>), UP("pb", <<UV(1, b1), UV(4, b4), UV(5, b5)>>), UP("pc", <<UV(1, c1), UV(5, c5)>>),
-                 UP("root", <<UV(1, rl), UV(5, <<>>)>>) >> :
-               rl \in RootOpts, a1 \in (IF Family = "full" THEN AOpts ELSE {<<>>, <<Rq("pb", 3, 0, <<>>)>>}), a5 \in AOpts,
-               b1 \in (IF Family = "full" THEN {<<>>, <<Rq("pc", 14, 0, <<>>)>>} ELSE {<<>>}), b4 \in BOpts, b5 \in BOpts,
-               c1 \in (IF Family = "full" THEN {<<>>, <<Rq("pb", 3, 0, <<>>)>>} ELSE {<<>>}), c5 \in COpts}
-Init == \E u \in Universes : PRInit(u, [name |-> "root", v |-> 1])
+Univ(rl, a1, a5, b1, b4, b5, c1, c5) == << UP("pa", <<UV(1, a1), UV(5, a5)>>), UP("pb", <<UV(1, b1), UV(4, b4), UV(5, b5)>>), UP("pc", <<UV(1, c1), UV(5, c5)>>),
+                                           UP("root", <<UV(1, rl), UV(5, <<>>)>>) >>
+\* nested quantifiers, not one set of universes: TLC enumerates the initial states lazily
+Init == \E rl \in RootOpts, a1 \in (IF Family = "full" THEN AOpts ELSE {<<>>, <<Rq("pb", 3, 0, <<>>)>>}), a5 \in AOpts,
+           b1 \in (IF Family = "full" THEN {<<>>, <<Rq("pc", 14, 0, <<>>)>>, <<Rq("pa", 3, 0, <<"test">>)>>} ELSE {<<>>}), b4 \in BOpts, b5 \in BOpts,
+           c1 \in (IF Family = "full" THEN {<<>>, <<Rq("pb", 3, 0, <<>>)>>} ELSE {<<>>}), c5 \in COpts :
+              PRInit(Univ(rl, a1, a5, b1, b4, b5, c1, c5), [name |-> "root", v |-> 1])
 Next == PRNext
 Emit == (phase \in {"done", "impossible"}) =>
           CSVWrite("%1$s", <<ToJson([universe |-> U, root |-> root, rounds |-> rounds,
